@@ -12,6 +12,7 @@
 // omp variant: list-mode gradient / value with 2..16 simulated threads vs one thread.
 #include "stir_util.h"
 #include "lm_common.h"
+#include "lm_world.h"
 #include "recon_common.h"
 #include "stir/listmode/LmToProjData.h"
 #include "stir/TimeFrameDefinitions.h"
@@ -20,10 +21,6 @@
 #include "stir/recon_buildblock/PoissonLogLikelihoodWithLinearModelForMeanAndListModeDataWithProjMatrixByBin.h"
 #include "stir/recon_buildblock/BinNormalisationFromProjData.h"
 #include "stir/recon_buildblock/TrivialBinNormalisation.h"
-#ifdef SIM_OMP
-#  include "simgomp.h"
-#  include "stir/num_threads.h"
-#endif
 #include <cmath>
 #include <cstring>
 #include <map>
@@ -34,9 +31,8 @@ using sim::Op;
 using sim::Plan;
 
 namespace {
+using namespace lmw;
 
-typedef DiscretisedDensity<3, float> target_type;
-typedef PoissonLogLikelihoodWithLinearModelForMeanAndListModeDataWithProjMatrixByBin<target_type> lm_objective_type;
 typedef std::tuple<int, int, int, int, int> BinKey; // segment, axial, view, tang, tof
 
 // access to the two parameters of LmToProjData that only the parser can set
@@ -47,92 +43,7 @@ public:
   void set_max_segment(int v) { this->max_segment_num_to_process = v; }
 };
 
-class LmObj : public lm_objective_type
-{
-public:
-  void set_frame(const TimeFrameDefinitions& f, unsigned frame_num)
-  {
-    this->frame_defs = f;
-    this->current_frame_num = frame_num;
-  }
-};
 
-struct World
-{
-  shared_ptr<Scanner> scanner;
-  shared_ptr<ProjDataInfo> scanner_pdi; // geometry of the list-mode data
-  shared_ptr<ProjDataInfo> templ;       // template of the histogram
-  shared_ptr<std::vector<lm::Rec>> script;
-  std::vector<double> mark_times; // seconds of every time mark, in order
-  bool has_delayeds = true;
-  double t_end = 0;
-};
-
-World
-make_world(const Plan& p, bool for_lm_objective)
-{
-  World w;
-  const int ndet = (int)p.c("ndet", 12), nrings = (int)p.c("nrings", 2), tof = (int)p.c("tof", 0);
-  // nine TOF bins of 80 ps (12 mm) and 80 ps timing resolution: every TOF bin sees part of the 20..36 mm wide images, and the
-  // bins together cover the image plus more than five sigma of the kernel (as a real coincidence window does), so that the
-  // TOF rows of a LOR add up to its non-TOF row -- the assumption behind STIR's non-TOF sensitivity for TOF data
-  w.scanner = vu::make_scanner(ndet, nrings, tof ? 9 : 0, 1.25f * ndet, 4.f, 4.f, 80.f, 80.f);
-  w.scanner_pdi = vu::make_pdi(w.scanner, 1, nrings - 1, ndet / 2, ndet / 2 + 1, false, tof ? 1 : 0);
-  int span = (int)p.c("span", 1);
-  if (span > 1 && nrings < 2)
-    span = 1;
-  int views = ndet / 2;
-  if (p.c("view_mash", 1) == 2 && views % 2 == 0)
-    views /= 2;
-  const int ntang = (int)std::max<long>(3, std::min<long>(p.c("ntang", ndet / 2 + 1), ndet / 2 + 1));
-  const int max_delta = (int)std::min<long>(p.c("max_delta", nrings - 1), nrings - 1);
-  // 9 unmashed TOF bins: legal mashing factors are 1, 3 and 9 (a shrunk plan may hold another number)
-  const long tm = p.c("tof_mash", 1);
-  const int tof_mash = tof ? (tm >= 9 ? 9 : (tm >= 3 ? 3 : 1)) : 0;
-  if (for_lm_objective)
-    {
-      // the list-mode objective function works in the geometry the list-mode data announce
-      w.templ = vu::make_pdi(w.scanner, 1, nrings - 1, ndet / 2, ndet / 2, false, tof_mash);
-      w.scanner_pdi = w.templ;
-    }
-  else
-    w.templ = vu::make_pdi(w.scanner, span, span > 1 ? nrings - 1 : max_delta, views, ntang, false, tof_mash);
-  // ---- the script
-  sim::Rng r(sim::mix(p.seed, 4242));
-  w.script.reset(new std::vector<lm::Rec>);
-  const int nrec = (int)p.c("nrec", 200);
-  unsigned long ms = 0;
-  w.has_delayeds = p.c("delayeds", 1) != 0;
-  auto push_event = [&]() {
-    lm::Rec e;
-    e.d1 = (int)r.below((uint64_t)ndet);
-    // never the same detector twice: STIR's detector-pair table has no entry for that (physically impossible) pair and
-    // what it returns is uninitialised memory; C14 is about valid coincidences, incl. ones outside the template's ranges
-    e.d2 = (int)((e.d1 + ndet / 2 + r.range(-ndet / 4, ndet / 4) + ndet) % ndet);
-    e.r1 = (int)r.below((uint64_t)nrings);
-    e.r2 = (int)r.below((uint64_t)nrings);
-    e.tof = tof ? (int)r.range(-5, 5) : 0; // the scanner has TOF bins -4..4: +-5 is out of range
-    e.prompt = !(w.has_delayeds && r.chance(0.25));
-    w.script->push_back(e);
-  };
-  // events before the first time mark
-  for (int i = (int)r.below(4); i > 0; --i)
-    push_event();
-  while ((int)w.script->size() < nrec)
-    {
-      ms += (unsigned long)(r.chance(0.2) ? 1000 : r.range(50, 900));
-      lm::Rec t;
-      t.is_time = true;
-      t.ms = ms;
-      w.script->push_back(t);
-      w.mark_times.push_back(ms / 1000.);
-      int nev = r.chance(0.1) ? (int)r.range(15, 40) : (int)r.below(7); // now and then a burst without time marks
-      while (nev-- > 0 && (int)w.script->size() < nrec)
-        push_event();
-    }
-  w.t_end = ms / 1000. + 1.;
-  return w;
-}
 
 struct HistOpts
 {
@@ -442,154 +353,6 @@ run_histogram(const Plan& p, sim::Result& res)
 }
 
 // ------------------------------------------------------------------ list-mode objective function
-struct LmProblem
-{
-  World w;
-  shared_ptr<VoxelsOnCartesianGrid<float>> lambda, input;
-  shared_ptr<ProjDataInMemory> additive, normfac;
-  bool sym = true;
-  int num_subsets = 1;
-  TimeFrameDefinitions frames;
-  double start = 0, end = 0;
-};
-
-LmProblem
-make_lm_problem(const Plan& p)
-{
-  LmProblem pr;
-  pr.w = make_world(p, true);
-  // prompts only in this source: the list-mode objective function ignores delayeds
-  const int xy = (int)p.c("xy", 7);
-  shared_ptr<ExamInfo> exam = vu::make_exam_info();
-  pr.lambda.reset(new VoxelsOnCartesianGrid<float>(exam, *pr.w.templ, 1.F, CartesianCoordinate3D<float>(0.F, 0.F, 0.F),
-                                                   CartesianCoordinate3D<int>(-1, xy, xy)));
-  sim::Rng r(sim::mix(p.seed, 31));
-  for (auto it = pr.lambda->begin_all(); it != pr.lambda->end_all(); ++it)
-    *it = (float)(0.5 + 2.5 * r.unit());
-  pr.input.reset(pr.lambda->clone());
-  for (auto it = pr.input->begin_all(); it != pr.input->end_all(); ++it)
-    *it = (float)r.unit();
-  pr.sym = p.c("sym", 1) != 0;
-  if (p.c("additive", 0))
-    {
-      pr.additive.reset(new ProjDataInMemory(exam, pr.w.templ));
-      std::vector<float> v(pr.additive->size_all());
-      for (auto& x : v)
-        x = (float)(0.25 + r.unit()); // differs from TOF bin to TOF bin
-      pr.additive->fill_from(v.begin());
-    }
-  if (p.c("norm", 0))
-    {
-      pr.normfac.reset(new ProjDataInMemory(exam, shared_ptr<ProjDataInfo>(pr.w.templ->create_non_tof_clone())));
-      std::vector<float> v(pr.normfac->size_all());
-      for (auto& x : v)
-        x = (float)(0.5 + 1.5 * r.unit());
-      pr.normfac->fill_from(v.begin());
-    }
-  {
-    const int views = pr.w.templ->get_num_views();
-    const int base = pr.sym ? std::max(1, views / 4) : views;
-    std::vector<int> legal;
-    for (int d = 1; d <= base; ++d)
-      if (base % d == 0)
-        legal.push_back(d);
-    pr.num_subsets = legal[(size_t)(p.c("subsets_pick", 0) % (long)legal.size())];
-  }
-  if (p.c("use_frame", 1))
-    {
-      pr.start = pr.w.mark_times.empty() || p.c("frame_from_zero", 1) ? 0. : pr.w.mark_times[pr.w.mark_times.size() / 4];
-      pr.end = pr.w.mark_times.empty() ? pr.w.t_end : pr.w.mark_times[pr.w.mark_times.size() * 3 / 4];
-      if (pr.end <= pr.start)
-        pr.end = pr.w.t_end;
-    }
-  else
-    {
-      pr.start = 0;
-      pr.end = pr.w.t_end;
-    }
-  pr.frames = TimeFrameDefinitions(std::vector<std::pair<double, double>>(1, std::make_pair(pr.start, pr.end)));
-  // The property compares gradients where they exist: an event in a bin whose model mean is (nearly) zero has likelihood zero
-  // (both implementations then cut the quotient off, each in its own way).  Such events are taken out of the script.
-  {
-    shared_ptr<ProjMatrixByBinUsingRayTracing> m = rc::make_matrix(pr.sym, false);
-    m->set_up(pr.w.templ, pr.lambda);
-    const ProjDataInfoCylindricalNoArcCorr& pdi = dynamic_cast<const ProjDataInfoCylindricalNoArcCorr&>(*pr.w.templ);
-    std::vector<lm::Rec> kept;
-    long dropped = 0;
-    for (const lm::Rec& rec : *pr.w.script)
-      {
-        if (!rec.is_time)
-          {
-            DetectionPositionPair<> dp(DetectionPosition<>(rec.d1, rec.r1, 0), DetectionPosition<>(rec.d2, rec.r2, 0), rec.tof);
-            Bin b;
-            if (pdi.get_bin_for_det_pos_pair(b, dp) == Succeeded::yes && b.tangential_pos_num() >= pdi.get_min_tangential_pos_num()
-                && b.tangential_pos_num() <= pdi.get_max_tangential_pos_num() && b.timing_pos_num() >= pdi.get_min_tof_pos_num()
-                && b.timing_pos_num() <= pdi.get_max_tof_pos_num())
-              {
-                ProjMatrixElemsForOneBin row;
-                m->get_proj_matrix_elems_for_one_bin(row, b);
-                Bin fb = b;
-                fb.set_bin_value(0.f);
-                row.forward_project(fb, *pr.lambda);
-                double f = fb.get_bin_value();
-                if (pr.additive)
-                  f += pr.additive->get_bin_value(b);
-                if (getenv("SIMRT_TRACE"))
-                  fprintf(stderr, "TRACE lm event det (%d,%d)-(%d,%d) tof %d -> bin(seg %d, ax %d, view %d, tang %d, tof %d) mean %.6g row %zu elements%s\n",
-                          rec.d1, rec.r1, rec.d2, rec.r2, rec.tof, b.segment_num(), b.axial_pos_num(), b.view_num(), b.tangential_pos_num(),
-                          b.timing_pos_num(), f, row.size(), f < 0.01 ? " (taken out)" : "");
-                if (f < 0.01)
-                  {
-                    ++dropped;
-                    continue;
-                  }
-              }
-          }
-        kept.push_back(rec);
-      }
-    if (dropped)
-      sim::probe("events_in_zero_mean_bins_taken_out", dropped);
-    pr.w.script.reset(new std::vector<lm::Rec>(kept));
-  }
-  return pr;
-}
-
-shared_ptr<BinNormalisation>
-make_norm(const LmProblem& pr)
-{
-  if (pr.normfac)
-    return shared_ptr<BinNormalisation>(new BinNormalisationFromProjData(pr.normfac));
-  return shared_ptr<BinNormalisation>(new TrivialBinNormalisation);
-}
-
-shared_ptr<LmObj>
-make_lm_objective(const LmProblem& pr, const shared_ptr<lm::SimListModeData>& src, long cache_size, const std::string& cache_dir, bool recompute_cache)
-{
-  shared_ptr<LmObj> obj(new LmObj);
-  obj->set_input_data(src);
-  obj->set_proj_matrix(rc::make_matrix(pr.sym));
-  if (pr.additive)
-    obj->set_additive_proj_data_sptr(pr.additive);
-  obj->set_normalisation_sptr(make_norm(pr));
-  obj->set_frame(pr.frames, 1);
-  obj->set_use_subset_sensitivities(true);
-  obj->set_recompute_sensitivity(true);
-  obj->set_num_subsets(pr.num_subsets);
-  obj->set_skip_balanced_subsets(true);
-  if (cache_size > 0)
-    {
-      obj->set_cache_path(cache_dir);
-      obj->set_cache_max_size((unsigned long)cache_size);
-      obj->set_recompute_cache(recompute_cache);
-    }
-  return obj;
-}
-
-std::vector<float>
-img(const target_type& t)
-{
-  return std::vector<float>(t.begin_all(), t.end_all());
-}
 
 void
 compare_images(const std::vector<float>& a, const std::vector<float>& b, double rel, const std::string& oracle, const char* what)
@@ -794,41 +557,6 @@ run_lm_gradient(const Plan& p, sim::Result& res)
 #endif
 
 #ifdef SIM_OMP
-namespace sc = sim::sched;
-struct LmOut
-{
-  std::vector<float> v;
-  std::vector<double> d;
-};
-LmOut
-lm_scenario(const Plan& p, const LmProblem& pr, int threads, const sc::Params& sp)
-{
-  const std::string dir = sim::scratch_dir() + "/lmcache" + std::to_string(threads);
-  rc::make_dir(dir);
-  shared_ptr<lm::SimListModeData> src(new lm::SimListModeData(pr.w.scanner_pdi, pr.w.script, pr.w.has_delayeds));
-  shared_ptr<LmObj> lobj = make_lm_objective(pr, src, p.c("cache_size", 0), dir, true);
-  sc::configure(sp);
-  set_num_threads(threads);
-  if (lobj->set_up(pr.lambda) != Succeeded::yes)
-    throw std::runtime_error("harness: set_up of the list-mode objective function failed");
-  LmOut o;
-  shared_ptr<target_type> g(pr.lambda->get_empty_copy());
-  for (int s = 0; s < pr.num_subsets; ++s)
-    {
-      std::vector<float> x = img(lobj->get_subset_sensitivity(s));
-      o.v.insert(o.v.end(), x.begin(), x.end());
-      g->fill(0.f);
-      lobj->compute_sub_gradient_without_penalty_plus_sensitivity(*g, *pr.lambda, s);
-      x = img(*g);
-      o.v.insert(o.v.end(), x.begin(), x.end());
-      o.d.push_back(lobj->compute_objective_function_without_penalty(*pr.lambda, s));
-      g->fill(0.f);
-      lobj->accumulate_sub_Hessian_times_input_without_penalty(*g, *pr.lambda, *pr.input, s);
-      x = img(*g);
-      o.v.insert(o.v.end(), x.begin(), x.end());
-    }
-  return o;
-}
 
 void
 run_lm_threads(const Plan& p, sim::Result& res)
